@@ -66,6 +66,10 @@ def plan(tier, seed):
                 runs.append((f"exh2x2/h{h}/big/{s}", ["exh", "2", "2", str(h), str(BIG_2x2), str(s), "16"]))
         for i, (th, calls) in enumerate([(4, 4000), (16, 2000)]):
             runs.append((f"stress{th}", ["stress", str(seed * 100 + i), str(th), str(calls)]))
+        runs.append(("stress8big", ["stress", str(seed * 100 + 11), "8", "400000", "40"]))
+        runs.append(("stress16big", ["stress", str(seed * 100 + 12), "16", "400000", "40"]))
+        runs.append(("stress8x60", ["stress", str(seed * 100 + 9), "8", "6000", "60"]))
+        runs.append(("stress3x60", ["stress", str(seed * 100 + 10), "3", "3000", "60"]))
     else:
         for h in range(NHIST):
             for s in range(16):
@@ -84,6 +88,7 @@ def plan(tier, seed):
         for i, th in enumerate([4, 8, 16, 32, 64]):
             runs.append((f"stress{th}", ["stress", str(seed * 100 + i), str(th), "10000"]))
             runs.append((f"stress{th}b", ["stress", str(seed * 100 + 50 + i), str(th), "2000"]))
+            runs.append((f"stress{th}r", ["stress", str(seed * 100 + 70 + i), str(th), "20000", "200"]))
     return runs
 
 
@@ -229,7 +234,8 @@ NP_NOTE = [""]
 def report_failures(prop, tier, seed, results):
     violations = 0
     seen = set()
-    for r in results:
+    # runs with a verdict of the property monitor first, then correspondence breaks (at most three reports)
+    for r in sorted(results, key=lambda r: (0 if r["mon"] else 1)):
         crashed = r["hrc"] not in (0, 3) or r["bad"]
         if not (r["mon"] or r["diff"] or r["hang"] or crashed):
             continue
